@@ -21,8 +21,9 @@
 EXTENDS Naturals, Sequences, TLC, LD
 
 CONSTANTS
-  AudioFrames, VideoFrames,   \* sets of abstract frames (payload = Fill(n, id))
-  AudioBodies, VideoBodies,   \* sets of byte sequences as an arbitrary writer produces them
+  AudioParams, VideoParams,   \* frame families (parameter records, see AudioFramesAt / VideoFramesAt)
+  AudioBodies, VideoBodies,   \* bodies as an arbitrary writer produces them: sets of <<firsts, seconds, tails>>
+  ShortBodies,                \* bodies of less than two bytes
   MaskOpusRate                \* TRUE: the layout above. FALSE: named deviation 'Opus rate not masked':
                               \* rate<<2 is or-ed into the first byte before its rate bits are cleared
 
@@ -137,37 +138,30 @@ CanonVideo(f, rawlen) ==
 CanonVideoBody(b) == VideoAccepts(b)
 
 \* --------------------------------------------------------- frame families
+\* A family is described by a parameter record; the members are chosen one dimension at a time
+\* (first byte, trait byte, side fields, payload) so that no large set is ever built.
 RawLens(min, p) == {min + d : d \in p.dl} \cup {a \in p.al : a >= min}
 
-\* p = [fbs, aac, opus, rates, levels, dl, al, ids]: first bytes; AAC / Opus trait bytes; Opus rate bytes;
-\* audio levels; payload lengths as offsets from the minimum (dl) and absolute (al); fill ids
-AudioFramesOf(p) ==
-  UNION { LET fmt == fb \div 16
-              bits == [fmt |-> fmt, rate |-> (fb \div 4) % 4, size |-> (fb \div 2) % 2, type |-> fb % 2,
-                       trait |-> 0, level |-> 0]
-          IN IF fmt = Opus THEN
-               IF bits.rate # 0 THEN {} ELSE
-               UNION { { [bits EXCEPT !.trait = t, !.rate = r, !.level = l] @@ [n |-> n, id |-> id] :
-                           r \in (IF HasSR(t) THEN p.rates ELSE {0}),
-                           l \in (IF HasAL(t) THEN p.levels ELSE {0}),
-                           n \in RawLens(0, p), id \in p.ids } : t \in p.opus }
-             ELSE IF fmt = AAC THEN
-               { [bits EXCEPT !.trait = t] @@ [n |-> n, id |-> id] : t \in p.aac, n \in RawLens(0, p), id \in p.ids }
-             ELSE
-               { bits @@ [n |-> n, id |-> id] : n \in RawLens(1, p), id \in p.ids }
-        : fb \in p.fbs }
+\* audio p = [fbs, aac, opus, rates, levels, dl, al, ids]: first bytes; AAC / Opus trait bytes; Opus rate
+\* bytes; audio levels; payload lengths as offsets from the minimum (dl) and absolute (al); fill ids
+AudioTraits(p, fb) == LET fmt == fb \div 16 IN
+  IF fmt = AAC THEN p.aac
+  ELSE IF fmt = Opus THEN (IF (fb \div 4) % 4 = 0 THEN p.opus ELSE {})  \* Opus frames have no rate bits
+  ELSE {0}
+AudioFramesAt(p, fb, t) ==
+  LET fmt == fb \div 16 IN
+  { [fmt |-> fmt, size |-> (fb \div 2) % 2, type |-> fb % 2, trait |-> t, rate |-> r, level |-> l, n |-> n, id |-> id] :
+      r \in (IF fmt # Opus THEN {(fb \div 4) % 4} ELSE IF HasSR(t) THEN p.rates ELSE {0}),
+      l \in (IF fmt = Opus /\ HasAL(t) THEN p.levels ELSE {0}),
+      n \in RawLens(AudioMinRaw(fmt), p), id \in p.ids }
 
-\* p = [fbs, traits, ctss, dl, al, ids]
-VideoFramesOf(p) ==
-  UNION { LET ft == fb \div 16  codec == fb % 16
-          IN IF HasAvcHeader(codec)
-             THEN { [ft |-> ft, codec |-> codec, trait |-> t, cts |-> c, n |-> n, id |-> id] :
-                      t \in p.traits, c \in p.ctss, n \in RawLens(0, p), id \in p.ids }
-             ELSE { [ft |-> ft, codec |-> codec, trait |-> 0, cts |-> 0, n |-> n, id |-> id] :
-                      n \in RawLens(4, p), id \in p.ids }
-        : fb \in p.fbs }
-
-BodiesOf(firsts, seconds, tails) == { <<b1, b2>> \o t : b1 \in firsts, b2 \in seconds, t \in tails }
+\* video p = [fbs, traits, ctss, dl, al, ids]
+VideoTraits(p, fb) == IF HasAvcHeader(fb % 16) THEN p.traits ELSE {0}
+VideoFramesAt(p, fb, t) ==
+  LET codec == fb % 16 IN
+  { [ft |-> fb \div 16, codec |-> codec, trait |-> t, cts |-> c, n |-> n, id |-> id] :
+      c \in (IF HasAvcHeader(codec) THEN p.ctss ELSE {0}),
+      n \in RawLens(VideoMinRaw(codec), p), id \in p.ids }
 
 \* ---------------------------------------------------------------- dispatch
 RawOf(f)        == [i \in 1..f.n |-> FillByte(f.id, i - 1)]
@@ -175,8 +169,12 @@ ConcreteA(f)    == [fmt |-> f.fmt, rate |-> f.rate, size |-> f.size, type |-> f.
                     trait |-> f.trait, level |-> f.level, raw |-> RawOf(f)]
 ConcreteV(f)    == [ft |-> f.ft, codec |-> f.codec, trait |-> f.trait, cts |-> f.cts, raw |-> RawOf(f)]
 
-Frames(k)       == IF k = "audio" THEN AudioFrames ELSE VideoFrames
-Bodies(k)       == IF k = "audio" THEN AudioBodies ELSE VideoBodies
+IsFrame(k, f)   == IF k = "audio"
+                   THEN \E p \in AudioParams : \E fb \in p.fbs : \E t \in AudioTraits(p, fb) : f \in AudioFramesAt(p, fb, t)
+                   ELSE \E p \in VideoParams : \E fb \in p.fbs : \E t \in VideoTraits(p, fb) : f \in VideoFramesAt(p, fb, t)
+IsBody(k, b)    == \/ b \in ShortBodies
+                   \/ \E bp \in (IF k = "audio" THEN AudioBodies ELSE VideoBodies) :
+                        \E b1 \in bp[1] : \E b2 \in bp[2] : \E t \in bp[3] : b = <<b1, b2>> \o t
 Enc(k, f)       == IF k = "audio" THEN AudioEnc(f) ELSE VideoEnc(f)
 EncC(k, c)      == IF k = "audio" THEN AudioEncC(c) ELSE VideoEncC(c)
 Dec(k, b)       == IF k = "audio" THEN AudioDec(b) ELSE VideoDec(b)
@@ -189,8 +187,8 @@ CanonBody(k, b) == IF k = "audio" THEN CanonAudioBody(b) ELSE CanonVideoBody(b)
 \* ------------------------------------------------------------ transitions
 Init == /\ kind \in {"audio", "video"}
         /\ src \in {"frame", "body"}
-        /\ IF src = "frame" THEN val \in Frames(kind) /\ wire = <<>> /\ pc = "built"
-                            ELSE val = <<>> /\ wire \in Bodies(kind) /\ pc = "tag"
+        /\ IF src = "frame" THEN IsFrame(kind, val) /\ wire = <<>> /\ pc = "built"
+                            ELSE val = <<>> /\ IsBody(kind, wire) /\ pc = "tag"
         /\ back = <<>> /\ wire2 = <<>>
 
 \* packager.Encode(frame)
